@@ -254,12 +254,16 @@ Less(m, n) == \/ m[3] < n[3]
               \/ m[3] = n[3] /\ m[2] = n[2] /\ m[1] < n[1]
 InOrder(m) == /\ \A v \in VisitedMetas : Less(v, m)
               /\ \A u \in MetasOf(task.levels) \ VisitedMetas : Less(u, m) => Skippable(u)
+\* (guards that contain disjunctions are compared with TRUE inside actions, so that TLC evaluates them
+\* as values instead of splitting the action at every disjunction)
+ProcessOK(m, h) == /\ MayWork(m) /\ Allowed(h, HandleRange(m)) /\ h # {}
+                   /\ WalkInOrder => InOrder(m)
+AllSkippable == \A m \in MetasOf(task.levels) \ VisitedMetas : Skippable(m)
 
 \* worker_pool.process(handle_tiles) for a meta tile with a non-empty list
 WalkProcessH(m, h) ==
   /\ pc = "walk" /\ m \in MetasOf(task.levels) \ VisitedMetas
-  /\ MayWork(m) /\ Allowed(h, HandleRange(m)) /\ h # {}
-  /\ WalkInOrder => InOrder(m)
+  /\ ProcessOK(m, h) = TRUE
   /\ Len(queue) < QueueCap
   /\ visited' = visited \cup {<<m, h>>}
   /\ queue' = IF task.dry THEN queue ELSE Append(queue, h)      \* TileWorkerPool.process is a no-op in a dry run
@@ -276,7 +280,7 @@ Worker ==
 \* walk() returned and the pool was stopped (sentinels consumed, workers joined)
 WalkFinish ==
   /\ pc = "walk" /\ queue = <<>>
-  /\ \A m \in MetasOf(task.levels) \ VisitedMetas : Skippable(m)
+  /\ AllSkippable = TRUE
   /\ pc' = "done"
   /\ UNCHANGED <<bk, tiles, junk, task, before, junk0, free, strategy, todo, visited, queue>>
 
